@@ -130,6 +130,10 @@ func (ts *TimedSched) sched() {
 			for tasks.Len() > 0 {
 				if now.After(tasks[0].ts) {
 					heap.Pop(&tasks).(timedFunc).execute()
+					// the task may have taken a while: judge and arm the
+					// following deadlines against the present, not against
+					// the moment the timer fired
+					now = time.Now()
 				} else {
 					timer.Reset(tasks[0].ts.Sub(now))
 					drained = false
